@@ -25,3 +25,32 @@ AGREE_TEXT = {0: 'agree', 1: 'model rejects, code accepts', 2: 'model accepts, c
               3: 'both accept, results differ', 4: 'both accept, bias echoes differ',
               10: 'model ran out of random numbers', 11: 'exp oracle has no entry', 12: 'model ran out of fuel',
               99: 'case file did not evaluate'}
+
+
+COLS = ['agree', 'C01', 'C03', 'C04', 'C05', 'C11', 'C12', 'C13']
+
+
+def xcase_term(pipe, req, res, n=48, exps=()):
+    """universal case: request, environment, final state (from the trace), observed response"""
+    fin = res.get('evalInput')
+    fin_t = 'None' if fin is None else '(Some %s)' % emit.cstate_d(req['preferenceFunction'], fin)
+    return '(mkX %s %s %s %s)' % (env_for(pipe, req, n, exps), emit.crequest(req), fin_t, emit.cobserved(res))
+
+
+def run_all(pipe, reqs, tag, n=48, op='trace'):
+    """returns (results, verdicts, logs): verdicts[i] = judge_all columns for request i"""
+    ress, terms = [], []
+    for r in reqs:
+        res = pipe.call({'op': op, 'req': r})
+        ress.append(res)
+        terms.append(xcase_term(pipe, r, res, n))
+    verd, logs = core.run_cases(tag, 'judge_all', terms)
+    # retry cases that ran out of shipped random numbers with a longer prefix
+    again = [i for i, v in enumerate(verd) if v and v[0] == 10]
+    if again and n < 2000:
+        t2 = [xcase_term(pipe, reqs[i], ress[i], 2048) for i in again]
+        v2, l2 = core.run_cases(tag + 'x', 'judge_all', t2, shard=20)
+        for i, v in zip(again, v2):
+            verd[i] = v
+        logs += l2
+    return ress, verd, logs
